@@ -65,6 +65,39 @@ Statuses(hasRange, sel, ims) ==
          [] sel.cls = "unsat" -> {416}
          [] sel.cls \in {"unsat0", "invalid"} -> {416, 200}
 
+\* ---- histories: the file changes on disk between requests ------------------------
+\* A file has versions 0, 1, 2, ...: version w has HLen(n0, w) bytes and a modification
+\* time 2 s later than version w-1.  A handler instance may keep serving a version it has
+\* cached, so the reference state is (ver, allowed): the version on disk and the set of
+\* versions the current handler instance may still serve.  A new handler instance (or one
+\* that does not cache) must serve the version on disk - bytes AND validators.
+HLen(n0, w) == n0 + 7 * w
+HEvents == {"get", "gz", "br", "zs", "rng", "imsprev", "mod", "new"}
+HIsReq(e) == e \notin {"mod", "new"}
+\* the request of an event: imsv = the version whose mtime If-Modified-Since carries (-1: none)
+HReq(e, ver) ==
+  CASE e = "get" -> [m |-> "GET", has |-> FALSE, v |-> <<>>, ae |-> "-", imsv |-> -1]
+    [] e = "gz"  -> [m |-> "GET", has |-> FALSE, v |-> <<>>, ae |-> "gzip", imsv |-> -1]
+    [] e = "br"  -> [m |-> "GET", has |-> FALSE, v |-> <<>>, ae |-> "br", imsv |-> -1]
+    [] e = "zs"  -> [m |-> "GET", has |-> FALSE, v |-> <<>>, ae |-> "zstd", imsv |-> -1]
+    [] e = "rng" -> [m |-> "GET", has |-> TRUE, v |-> BytesEq \o <<"1", "-">>, ae |-> "-", imsv |-> -1]
+    [] e = "imsprev" -> [m |-> "GET", has |-> FALSE, v |-> <<>>, ae |-> "gzip", imsv |-> ver - 1]
+\* what the answer must be IF the handler serves version w
+HOutcome(q, w, n0) ==
+  LET n == HLen(n0, w)
+      sel == SelectFor(q.v, n)
+      ims == IF q.imsv >= 0 /\ w <= q.imsv THEN "at" ELSE "none" IN
+  [w |-> w, n |-> n, st |-> Statuses(q.has, sel, ims), s |-> sel.s, e |-> sel.e]
+
+\* state after the first i events; NewHandler also models cache expiry
+HInit == [ver |-> 0, allowed |-> {0}]
+HStep(st, e) ==
+  IF e = "mod" THEN [ver |-> st.ver + 1, allowed |-> st.allowed \cup {st.ver + 1}]
+  ELSE IF e = "new" THEN [ver |-> st.ver, allowed |-> {st.ver}]
+  ELSE st
+RECURSIVE HStateAt(_, _)
+HStateAt(evs, i) == IF i = 0 THEN HInit ELSE HStep(HStateAt(evs, i - 1), evs[i])
+
 \* ============ properties of the reference itself (checked by TLC) ==========
 SelectOK(f, n) == LET r == Select(f, n) IN
   /\ r.cls = "sat" => /\ 0 <= r.s /\ r.s <= r.e /\ r.e < n             \* the property's invariant
